@@ -1,7 +1,36 @@
-(* Extraction entry point for C05: same operational model and specification as C03. *)
-From NDN Require Import Base.Prelude Base.Sexp Spec.ExpressSpec Model.ExpressPipeline Extract.ExC03.
+(* Extraction entry point for C05: same operational model and specification as C03, plus the model of suspended
+   Interest validators under route changes (Model/GateSuspend.v, request 5). *)
+From NDN Require Import Base.Prelude Base.Sexp Spec.ExpressSpec Model.ExpressPipeline Model.GateSuspend Extract.ExC03.
 From Coq Require Extraction ExtrOcamlBasic.
+Local Open Scope N_scope.
 
-Definition run := ExC03.run.
+Definition as_inc (s : sexp) : option inc :=
+  match s with
+  | SList [k; n; hp; sg; dok; v] =>
+      odo k <- as_num k ;; odo n <- as_name n ;; odo hp <- as_bool hp ;; odo sg <- as_num sg ;; odo dok <- as_bool dok ;;
+      odo v <- as_num v ;; Some (mkInc k n hp sg dok v)
+  | _ => None
+  end.
+Definition as_gev (s : sexp) : option gev :=
+  match s with
+  | SList [SNum 0; p; hv] => odo p <- as_name p ;; odo hv <- as_bool hv ;; Some (GAttach p hv)
+  | SList [SNum 1; p] => odo p <- as_name p ;; Some (GDetach p)
+  | SList [SNum 2; own] => odo own <- as_bool own ;; Some (GSetDefault own)
+  | SList [SNum 3; k; sp] => odo k <- as_inc k ;; odo sp <- as_bool sp ;; Some (GArrive k sp)
+  | SList [SNum 4; kid; v] => odo kid <- as_num kid ;; odo v <- as_num v ;; Some (GVerdict kid v)
+  | _ => None
+  end.
 
+Definition run (req : sexp) : sexp :=
+  match req with
+  | SList [SNum 5; fe; evs] =>
+      or_bad (odo fe <- as_fe fe ;; odo evs <- as_list_of as_gev evs ;;
+              let s := g_run fe evs in
+              Some (SList [ s_list (fun x : N * inc => SList [SNum (fst x); SNum (snd x).(k_id)]) s.(g_hc);
+                            s_list SNum s.(g_iv) ]))
+  | _ => ExC03.run req
+  end.
+
+(* the driver calls [Model.run]: the dispatcher of ExC03 must not take that name in the extracted file *)
+Extraction Inline ExC03.run.
 Extraction "../ocaml/build/C05/model.ml" run.
